@@ -50,10 +50,10 @@ def deref(e):
 
 
 def setup_env(P, servertype, variant=None):
-    for cls in (items.Item, items.Other, items.KlassA, items.KlassB):
+    for cls in (items.Item, items.EqItem, items.Other, items.KlassA, items.KlassB):
         P.server.expose(cls)
     fx = fixture.Fixture(servertype=servertype, COMMTIMEOUT=0.0, variant=variant)
-    pool = [items.Item("i0"), items.Item("i1"), items.Other("o2"), items.Item("i3"), items.Other("o4")]
+    pool = [items.Item("i0"), items.EqItem("e1"), items.Other("o2"), items.EqItem("e3"), items.Other("o4")]     # (1 and 3 are equal by value, not identical)
 
     @P.server.expose
     class Hub(object):
@@ -66,7 +66,7 @@ def setup_env(P, servertype, variant=None):
 
     def conv(classname, d):
         return {"byvalue": True, "serial": d.get("serial"), "label": d.get("label"), "classname": classname}
-    for cn in ("checks.c16_items.Item", "checks.c16_items.Other"):
+    for cn in ("checks.c16_items.Item", "checks.c16_items.EqItem", "checks.c16_items.Other"):
         P.serializers.SerializerBase.register_dict_to_class(cn, conv)
     # a second daemon in the same process that (un)registers objects of the very same classes now and then: what one daemon does with
     # its registry must not change how the other daemon's registered objects travel
